@@ -24,3 +24,9 @@ Definition read_raw_signed (bs : list Z) : Z :=
   let u := decode_le bs in
   if u <? 2 ^ (n - 1) then u else u - 2 ^ n.
 
+
+(* ---- a location inside a larger object: `size` bytes at byte offset `off` of `mem` *)
+Definition unit_at (off size : nat) (mem : list Z) : list Z := firstn size (skipn off mem).
+(* memcpy of `new` to offset `off` *)
+Definition splice (off : nat) (new mem : list Z) : list Z :=
+  firstn off mem ++ new ++ skipn (off + List.length new) mem.
